@@ -828,7 +828,11 @@ impl Collection {
                 .and_then(Result::ok)
         }
 
-        let host = sni_hostname.or_else(|| get_header(request.headers()));
+        // HTTP/2 and HTTP/3 requests name the host in `:authority` (the authority of the URI),
+        // not in a `host` header.
+        let host = sni_hostname
+            .or_else(|| get_header(request.headers()))
+            .or_else(|| request.uri().authority().map(uri::Authority::as_str));
 
         self.get_option_or_default(host)
     }
